@@ -17,7 +17,7 @@ RULE = ('seeded generator: planes with amplitude/OPD each scalar or 2-D, mask No
 ASSUMPTIONS = ['a plane with scalar amplitude, array OPD and no mask has no extent and is excluded (DESIGN.md C07)',
                'segment masks of one plane are pairwise disjoint']
 PLAN = {'quick': {'gen': 8}, 'thorough': {'gen': 16, 'tests': 1, 'docs': 1}}
-REQUIRED_BUCKETS = ['amp:scalar', 'amp:array', 'opd:scalar', 'opd:array', 'mask:none', 'mask:2d', 'mask:3d',
+REQUIRED_BUCKETS = ['wf:chain-overlap', 'amp:scalar', 'amp:array', 'opd:scalar', 'opd:array', 'mask:none', 'mask:2d', 'mask:3d',
                     'amp:scalar+mask:array', 'wf:default', 'wf:chain', 'wf:multi-field', 'wf:overlapping-fields',
                     'plane:default', 'pixelscale:mismatch', 'insert:weight0', 'insert:negative', 'pupil:focal']
 REQUIRED_ANCHORS = ['probe:Plane.multiply', 'probe:Pupil.multiply', 'probe:Wavefront.field',
@@ -367,6 +367,55 @@ def workload(ctx, lentil):
                 img = lentil.Image(amplitude=gen.amplitude(rng, np.ones(w2.shape, bool)))
                 w3 = w2 * img
                 _touch_views(ctx, lentil, rng, w3)
+
+    # wavefronts with many fields that overlap in chains (A-B and B-C overlap, A-C do not), two routes:
+    # (a) assembled from Field objects, (b) segmented pupil with per-segment fitted tilts and a small propagation window
+    Field = lentil.field.Field
+    for i in range(max(20, n // 3)):
+        wl = float(rng.uniform(400e-9, 1500e-9))
+        S = gen.rshape(rng, 8, 30)
+        k = int(rng.integers(3, 9))
+        w = lentil.Wavefront.empty(wavelength=wl, pixelscale=5e-6, shape=S, ptype=lentil.image)
+        r, c = int(rng.integers(-S[0] // 2, 1)), int(rng.integers(-S[1] // 2, 1))
+        descf = []
+        for j in range(k):
+            fs = (int(rng.integers(2, 7)), int(rng.integers(2, 7)))
+            # step by a bit less than the field size most of the time -> neighbours overlap, non-neighbours do not
+            r += int(rng.integers(0, fs[0] + 1)) * int(rng.choice([1, 1, 0]))
+            c += int(rng.integers(1, fs[1] + 2))
+            descf.append([list(fs), [r, c]])
+            w.data.append(Field(rng.normal(size=fs) + 1j * rng.normal(size=fs), pixelscale=5e-6, offset=[r, c]))
+        if rng.random() < 0.5:
+            order = rng.permutation(k)
+            w.data = [w.data[int(q)] for q in order]
+        ctx.case({'assembled': descf, 'shape': list(S)}, ['wf:chain-overlap'])
+        _touch_views(ctx, lentil, rng, w)
+    for i in range(max(12, n // 6)):
+        wl, z, dx, du, os_ = gen.optics(rng, aniso_p=0.3)
+        dus = np.broadcast_to(np.asarray(du, float), (2,))
+        dxs = np.broadcast_to(np.asarray(dx, float), (2,))
+        shape = gen.rshape(rng, 8, 18)
+        A = gen.support(rng, shape, kind=int(rng.choice([0, 1, 4])))
+        if A.sum() < 12:
+            A = np.ones(shape, bool)
+        segs, _ = gen.partition(rng, A, int(rng.integers(3, 6)))
+        oshape = gen.rshape(rng, 10, 20)
+        S = (oshape[0] * os_, oshape[1] * os_)
+        opd = np.zeros(shape)
+        rr = (np.arange(shape[0]) - shape[0] // 2)[:, None]
+        cc = (np.arange(shape[1]) - shape[1] // 2)[None, :]
+        for sg in segs:
+            sp = rng.uniform(-0.3, 0.3, size=2) * np.array(S)
+            tx, ty = sp[0] * dus[0] / (z * os_), -sp[1] * dus[1] / (z * os_)
+            opd = opd + (tx * rr * dxs[0] - ty * cc * dxs[1]) * sg
+        ctx.case({'segmented-tilts': len(segs), 'shape': list(shape), 'out': list(oshape), 'os': os_}, ['wf:chain-overlap'])
+        try:
+            pl = lentil.Pupil(amplitude=gen.amplitude(rng, A), opd=opd, mask=segs.astype(float), pixelscale=dx, focal_length=z).fit_tilt()
+            ps = (max(1, oshape[0] // int(rng.integers(2, 5))), max(1, oshape[1] // int(rng.integers(2, 5))))
+            w2 = lentil.propagate_dft(lentil.Wavefront(wl) * pl, du, shape=oshape, prop_shape=ps, oversample=os_)
+        except Exception:
+            continue
+        _touch_views(ctx, lentil, rng, w2)
 
     # default plane changes nothing
     for i in range(max(10, n // 6)):
